@@ -133,32 +133,32 @@ fn verbatim_line<const M: usize, const L: usize>(marker: &'static [u8; M], which
 }
 
 #[kani::proof]
-#[kani::unwind(20)]
+#[kani::unwind(14)]
 fn c14_rename_from_3() {
     verbatim_line::<12, 3>(b"rename from ", 0);
 }
 #[kani::proof]
-#[kani::unwind(20)]
+#[kani::unwind(12)]
 fn c14_rename_to_3() {
     verbatim_line::<10, 3>(b"rename to ", 0);
 }
 #[kani::proof]
-#[kani::unwind(20)]
+#[kani::unwind(12)]
 fn c14_copy_from_3() {
     verbatim_line::<10, 3>(b"copy from ", 1);
 }
 #[kani::proof]
-#[kani::unwind(20)]
+#[kani::unwind(10)]
 fn c14_copy_to_3() {
     verbatim_line::<8, 3>(b"copy to ", 1);
 }
 #[kani::proof]
-#[kani::unwind(20)]
+#[kani::unwind(16)]
 fn c14_new_file_mode_3() {
     verbatim_line::<14, 3>(b"new file mode ", 2);
 }
 #[kani::proof]
-#[kani::unwind(24)]
+#[kani::unwind(20)]
 fn c14_deleted_file_mode_3() {
     verbatim_line::<18, 3>(b"deleted file mode ", 3);
 }
